@@ -405,6 +405,13 @@ impl Block {
         self.statements.last_mut().unwrap().mutate_last_token()
     }
 
+    /// Returns a mutable reference to the token that closes this block (written after
+    /// every statement and semicolon), creating it if missing.
+    pub(crate) fn mutate_final_token(&mut self) -> &mut Token {
+        self.set_default_tokens();
+        self.tokens.as_mut().unwrap().final_token.as_mut().unwrap()
+    }
+
     fn set_default_tokens(&mut self) {
         if self.get_tokens().is_none() {
             self.set_tokens(BlockTokens {
